@@ -194,6 +194,10 @@ func buildUniverse() {
 	add("slice(None)", false, func() py.Object { return py.NewSlice(py.None, py.None, py.None) })
 	add("slice(1,2**63-1,-1)", false, func() py.Object { return py.NewSlice(py.Int(1), py.Int(math.MaxInt64), py.Int(-1)) })
 	add("slice('a',1.5,[])", false, func() py.Object { return py.NewSlice(py.String("a"), py.Float(1.5), py.NewList()) })
+	// members whose Go representation is a slice or a map (not comparable with ==)
+	add("slice((1,2),b'x',{})", false, func() py.Object {
+		return py.NewSlice(py.Tuple{py.Int(1), py.Int(2)}, py.Bytes("x"), py.NewStringDict())
+	})
 	add("iter([1,2])", false, func() py.Object {
 		return py.NewIterator(py.NewListFromItems([]py.Object{py.Int(1), py.Int(2)}))
 	})
